@@ -587,6 +587,15 @@ def main():
     ok, log = run.build(targets, clean=(run.tier == "thorough"))
     proofs_ok = ok and run.theorems()
     if not ok: run.proof_log = log[-2500:]
+    if proofs_ok and run.tier == "thorough":
+        # independent re-check of the compiled theorems and everything they depend on
+        rc, out = C.sh(["coqchk", "-silent", "-o", "-Q", ".", "TT", "TT.Properties.C19"], 3000, cwd=C.COQ)
+        axioms = re.search(r"\* Axioms:\s*(.*?)\s*\* Constants/Inductives relying on type-in-type", out, re.S)
+        run.cov["coqchk"] = dict(rc=rc, axioms=(axioms.group(1).strip() if axioms else "?"))
+        run.cov["obligations"] += 1
+        if rc == 0 and axioms and axioms.group(1).strip() == "<none>": run.cov["discharged"] += 1
+        else:
+            proofs_ok = False; run.proof_log = "coqchk: " + out[-1500:]
     run.witnesses()
 
     quick = run.tier == "quick"
